@@ -234,6 +234,28 @@ func generate(r *hx.Run, prop string) []*Case {
 				}
 			}
 		}
+		// the dial prefix: every combination of {ok, 4yz, 5yz, drop, unusual code} at greeting / EHLO / HELO-or-NOOP,
+		// for several capability sets, 8bit and DSN configurations (ext map dropped after the HELO fallback)
+		dialAlpha := []string{"ok", "451:4.3.0_try_again_later", "554:5.7.1_rejected_by_policy", "drop", "250:not_a_greeting_code", "421:4.3.2_closing"}
+		for _, a0 := range dialAlpha {
+			for _, a1 := range dialAlpha {
+				for _, a2 := range dialAlpha[:4] {
+					for ci, caps := range [][]string{allCaps, nil, allCaps[:1], {"DSN", "SMTPUTF8"}} {
+						if a1 == "250:not_a_greeting_code" {
+							continue // an OK-class reply with custom text to EHLO would be taken as the capability list
+						}
+						for _, enc := range []byte{'q', 'n'} {
+							if !thorough && a0 != "ok" && (ci > 0 || enc == 'n') {
+								continue // nothing follows a refused greeting: one configuration is enough
+							}
+							c := base(1, 2, enc, caps, scriptWith(map[int]string{0: a0, 1: a1, 2: a2}))
+							c.Ret, c.Notify = "FULL", "FAILURE"
+							add(c)
+						}
+					}
+				}
+			}
+		}
 		// producer failures x single deviations
 		for _, k := range []struct {
 			kind byte
